@@ -35,4 +35,18 @@ PROPS = {
               {"tsan": {"workers": 8}, "asan": {"workers": 8}},
               {"tsan": {"workers": 8}, "asan": {"workers": 6}, "plain": {"workers": 2}}),
     ),
+    "C14": dict(
+        level="exploration",
+        rule=("one run = a history of create / eval / destroy operations over 3 arena slots (placement new: the simulator decides address "
+              "reuse) and 2 heap slots, performed by 1..4 long-lived actor threads; same-slot operations keep plan order, different slots "
+              "interleave under the seeded scheduler. distinct = hash of (op kind, actor, slot) sequence x interleaving; non-trivial = at least "
+              "one engine destroyed or one context switch. Oracle: per-generation dictionary model (locals per actor, functions, globals, "
+              "conversions, used files); every value encodes its engine generation."),
+        real_vs_stub=REAL,
+        assumptions=COMMON_ASSUME + ["creation/destruction of an engine is ordered with its uses by the user (plan order per slot)"],
+        expected_probes=["probe_destroyed_by_other_thread_than_user", "fault_engine_recreate_same_address"],
+        **two(40, 420,
+              {"asan": {"workers": 10}, "plain": {"workers": 6}},
+              {"asan": {"workers": 10}, "plain": {"workers": 6}}),
+    ),
 }
